@@ -14,7 +14,7 @@ LevelDecs == <<"0.001", "0.01", "0.05", "0.1", "0.2", "0.25", "0.3", "0.5", "0.7
                "0.975", "0.99", "0.995", "0.999", "0.9999">>
 CKinds == <<"two", "upper", "lower">>
 Conf(ki, li) == [kind |-> CKinds[ki], level |-> [dec |-> LevelDecs[li]]]
-Ns == IF Thorough THEN <<20, 30, 50, 100, 200, 400, 1000, 2000>> ELSE <<20, 30, 50, 100, 200>>
+Ns == IF Thorough THEN <<20, 30, 50, 100, 200, 400, 1000, 1500, 2000>> ELSE <<20, 30, 50, 100, 200, 1500>>
 Levs == {10, 11, 12, 14}
 B == 200
 
@@ -22,10 +22,12 @@ VARIABLE done
 Init == done = FALSE
 PropPart(d) ==
   \A i \in DOMAIN Ns : \A li \in Levs : \A ki \in 1..3 : \A k \in 0..Ns[i] :
+     (Thorough \/ Ns[i] <= 200 \/ li = 12) =>
      Emit([op |-> "prop.ci", fe |-> "ci", n |-> Ns[i], k |-> k, conf |-> Conf(ki, li), li |-> li,
            first |-> k = 0, last |-> k = Ns[i], den |-> B])
 QuantPart(d) ==
   \A i \in DOMAIN Ns : \A li \in Levs : \A ki \in 1..3 : \A a \in 1..(B - 1) :
+     (Thorough \/ Ns[i] <= 200 \/ li = 12) =>
      Emit([op |-> "quant.ranks", n |-> Ns[i], a |-> a, den |-> B, q |-> [num |-> a, den |-> B],
            conf |-> Conf(ki, li), li |-> li, first |-> a = 1, last |-> a = B - 1])
 Next == /\ ~done
